@@ -238,10 +238,13 @@ func harnessC15HopLimit() {
 	if verif_nondet_bool() {
 		seenBy = []identity.AgentID{from}
 	}
-	ok := f.HandleRouteAdvertise(from, origin, "", 1, []protocol.Route{fRoute(1)}, &protocol.EncryptedData{Data: protocol.EncodePath(path)}, seenBy)
+	// every kind of route: CIDR, exact and wildcard domain, forward key, agent presence
+	ok := f.HandleRouteAdvertise(from, origin, "", 1, c06Group(origin, 'c', 1, verif_nondet_u8()), &protocol.EncryptedData{Data: protocol.EncodePath(path)}, seenBy)
 	verif_reach("C15/hop-limit")
 	if n > maxHops {
 		verif_assert(rm.Table().TotalRoutes() == 0, "C15/stored-beyond-hop-limit")
+		verif_assert(rm.DomainTable().TotalRoutes() == 0 && rm.ForwardTable().TotalRoutes() == 0, "C15/stored-beyond-hop-limit")
+		verif_assert(rm.LookupAgent(origin) == nil && len(rm.AgentTable().GetAllRoutes()) == 0, "C15/presence-stored-beyond-hop-limit")
 		verif_assert(len(snd.log) == 0, "C15/forwarded-beyond-hop-limit")
 		verif_assert(!ok, "C15/accepted-beyond-hop-limit")
 	} else {
@@ -368,4 +371,29 @@ func harnessC13Replay() {
 		}
 	}
 	verif_assert(n >= 11, "C13/replay-incomplete")
+}
+
+// C14 (split horizon of the replay): what was learned through a neighbour is
+// never replayed back to that neighbour (it would travel on under the replaying
+// agent's own sequence numbers and mask the origin's announcements further on)
+func harnessC14SplitHorizon() {
+	f, snd, rm := fNew(0, []identity.AgentID{fID(0)})
+	b, c := fID(0), fID(2)
+	f.HandleRouteAdvertise(b, b, "", 3, c06Group(b, 'b', 0, 1), &protocol.EncryptedData{Data: protocol.EncodePath([]identity.AgentID{b})}, []identity.AgentID{b})
+	f.HandleRouteAdvertise(b, c, "", 5, c06Group(c, 'c', 1, 2), &protocol.EncryptedData{Data: protocol.EncodePath([]identity.AgentID{b, c})}, []identity.AgentID{c, b})
+	rm.AddLocalRoute(&net.IPNet{IP: net.IP{10, 'l', 0, 0}, Mask: net.CIDRMask(24, 32)}, 0)
+	snd.log = nil
+	f.SendFullTable(b)
+	verif_reach("C14/split-horizon")
+	for _, s := range snd.log {
+		adv, err := protocol.DecodeRouteAdvertise(s.f.Payload)
+		verif_assert(err == nil, "C14/replayed-group-does-not-decode")
+		if err != nil {
+			return
+		}
+		verif_assert(adv.OriginAgent == fID(fLocal), "C14/routes-learned-through-a-neighbour-replayed-back-to-it")
+		for _, r := range adv.Routes {
+			verif_assert(r.AddressFamily == protocol.AddrFamilyIPv4 && len(r.Prefix) == 4 && r.Prefix[1] == 'l', "C14/routes-learned-through-a-neighbour-replayed-back-to-it")
+		}
+	}
 }
